@@ -196,14 +196,21 @@ Section Sim2.
     - injection H as <-. now exists acc.
     - cbn [fst snd] in H1, H2. subst pa. pose proof (env_get_rel d h a acc pacc Ha) as Hg.
       destruct (qenv_get a pacc) as [q|].
-      + destruct Hg as (v & -> & _). now apply IH.
+      + destruct Hg as (v & -> & _). exact (IH acc pacc pfull Ha H).
       + rewrite Hg. destruct df, pdf; cbn [def_rel] in H2; try contradiction; try discriminate.
         apply (IH (env_set a v acc) (qenv_set a p pacc) pfull); [|exact H]. apply env_set_rel; [exact Ha|apply H2].
   Qed.
 
+  Lemma qrun_func_S : forall f id bound ps,
+    QR (S f) id bound ps =
+    do full <- qfill_formals (qf_args (nth id (qfs ps) qfn_default)) bound;
+    do '(r, _) <- QB f (qf_body (nth id (qfs ps) qfn_default)) (QS (qg ps) [full] (qfs ps));
+    match r with QRRet v => Ok v | _ => Ok QNone end.
+  Proof. reflexivity. Qed.
+
   Lemma Rsim_S : forall f, Bsim f -> Rsim (S f).
   Proof.
-    intros f HB id bound pbound st ps p Hs Hb H. cbn [qrun_func] in H. rewrite run_func_S.
+    intros f HB id bound pbound st ps p Hs Hb H. rewrite qrun_func_S in H. rewrite run_func_S.
     pose proof (nth_func_rel _ _ id (sr_fn d st ps Hs)) as (_ & Hbody & Hscope & Hf).
     destruct (qfill_formals (qf_args (nth id (qfs ps) qfn_default)) pbound) as [pfull| |] eqn:Ef; try discriminate. cbn [rbind] in H.
     destruct (fill_sim (hp st) _ _ Hf bound pbound pfull Hb Ef) as (full & Efill & Hfull). rewrite Efill. cbn [rbind].
@@ -273,8 +280,8 @@ Section Sim2.
       apply str_eqb_eq in En. now subst n. }
     subst it. rewrite eval_expr_S_none. unfold main_of. rewrite eval_vexpr_S_call.
     rewrite (lookup_builtin d st ps (s "range") Hs El eq_refl).
-    destruct (call_value_S_builtin d [] f3 (s "range") (s "range") args st) as [hof E]. rewrite E. clear E hof.
-    unfold qnative_args in Ea. rewrite native_sig_range in *.
+    destruct (call_value_S_builtin d [] f3 (s "range") (s "range") args st) as [hof E]. rewrite E, native_sig_range. clear E hof.
+    unfold qnative_args in Ea. rewrite native_sig_range in Ea.
     assert (HE3 : Esim f3) by (apply HEm; lia).
     destruct (nargs_sim d f3 ps (fun e => QE f3 e ps) (fun e st0 p0 Hs0 => HE3 e st0 ps p0 Hs0) (s "range") _ _ native_sig_range args st pvals Hs Ea)
       as (vals & st1 & E1 & Hx1 & Hv).
@@ -341,10 +348,10 @@ Section Sim2.
                   end ->
               exists st1, K = Ok st1 /\ srel d st1 ps1 /\ grows st st1 /\ (locals st <> [] -> lle st st1)).
     { intros K H0 ->. destruct pli; try discriminate. destruct (vrel_list_inv d st l li Hv) as (sl & -> & Hc & _).
-      rewrite (vrels_length _ _ _ _ Hc). destruct (Nat.eqb (length l) (length names)); [|discriminate]. injection H0 as <-.
+      cbv beta iota zeta. rewrite (vrels_length _ _ _ _ Hc). destruct (Nat.eqb (length l) (length names)); [|discriminate]. injection H0 as <-.
       destruct (fold_set_rel names l _ st ps Hs Hc) as (A & B & C).
       exists (fold_left (fun acc nv => set_var (fst nv) (snd nv) acc) (combine names (list_items d st sl)) st).
-      split; [now destruct d|]. now split. }
+      split; [reflexivity|]. now split. }
     destruct names as [|n [|n2 names]].
     - apply Hmany; [exact H|reflexivity].
     - cbn [qunpack] in H. injection H as <-. exists (set_var n li st). split; [reflexivity|]. split; [now apply set_var_rel|].
@@ -708,7 +715,7 @@ Section Sim2.
             (destruct (qapply_bin chk f Add _ p) as [pr| |] eqn:Ea; try discriminate; cbn [rbind] in H;
              injection H as <- <-; exists pr; now repeat split). }
         destruct Hab as (pr & Ea & -> & ->).
-        destruct (apply_bin_sim d chk chk_ok f Add pold p pr st1 old v Hold1 Hv Ea) as (vr0 & st2 & Hab & Hx2 & Hvr).
+        destruct (apply_bin_sim d chk cneg chk_ok cneg_ok f Add pold p pr st1 old v Hold1 Hv Ea) as (vr0 & st2 & Hab & Hx2 & Hvr).
         rewrite Hab. cbn [rbind]. exists RNone, (set_var n vr0 st2). four; [reflexivity|exact I| |].
         - apply set_var_rel; [now apply (srel_xle d st1)|exact Hvr].
         - apply grows_set_var. apply (grows_trans st st1); [exact Hg1|now apply grows_xle]. }
@@ -771,7 +778,7 @@ Section Sim2.
   Lemma all_sim : forall n, All n.
   Proof.
     induction n as [n IH] using lt_wf_ind. destruct n as [|f].
-    - constructor; intros until 0; intros; discriminate.
+    - constructor; repeat intro; discriminate.
     - assert (HEm : forall m, (m <= f)%nat -> Esim m) by (intros m Hm; apply (a_E m), IH; lia).
       destruct (IH f (Nat.lt_succ_diag_r f)) as [HE HV HC HCB HR HB HS].
       constructor.
@@ -809,11 +816,11 @@ Section Sim2.
     induction n as [|n IH]; intros st ps p v Hf Hv; [reflexivity|].
     destruct p; cbn [vrel] in Hv; try (subst v; reflexivity).
     - destruct (vrel_list_inv d st l v Hv) as (sl & -> & Hc & _). cbn [render qrender ostrip]. f_equal.
-      rewrite map_map. unfold vrels in Hc. induction Hc as [|q c qs cs Hq _ IHc]; [reflexivity|]. cbn [map]. f_equal; [now apply IH|exact IHc].
+      rewrite map_map. clear Hv. unfold vrels in Hc. induction Hc as [|q c qs cs Hq _ IHc]; [reflexivity|]. cbn [map]. f_equal; [now apply IH|exact IHc].
     - apply vrel_dict in Hv. destruct Hv as (i & es & -> & H2 & H3 & H4). cbn [render qrender ostrip]. f_equal.
       unfold dict_of. cbn [hp snd] in H2. rewrite (nth_error_nth _ _ _ H2).
       rewrite (sorted_sort_id d (hp st) es kvs H4 H3). rewrite map_map. cbn [fst snd].
-      unfold env_rel in H4. induction H4 as [|kv pkv es kvs [Hk Hq] _ IHc]; [reflexivity|]. cbn [map]. f_equal; [|exact IHc].
+      clear H2 H3. unfold env_rel in H4. induction H4 as [|kv pkv es kvs [Hk Hq] _ IHc]; [reflexivity|]. cbn [map]. f_equal; [|exact IHc].
       rewrite Hk. f_equal. now apply IH.
     - subst v. cbn [render qrender ostrip]. f_equal. now apply fname_rel.
   Qed.
